@@ -46,7 +46,7 @@ CLAIMED["C06"] = dict(
          "the real decoder loop behind the re-queueing glue never panics and emits exactly what an independent PROTOCOL.md 6.3 reader "
          "emits from the concatenated stream (accepted records in order; too-short, too-large and non-UTF-8 records skipped in "
          "their entirety); spec_decode_encode / decode_encode: the client's encoding round-trips for all well-formed datagrams; "
-         "inv_step / inv_buffer_bounded: bounded buffering; 6.4 format. Tied to http_udp_codec.rs + DatagramDecoder::read by "
+         "inv_step / inv_buffer_bounded: bounded buffering; 6.4 format and framing (encode_out_length, encode_out_framed, encode_out_concat). Tied to http_udp_codec.rs + DatagramDecoder::read by "
          "thousands of segmentations per run (every 1-cut, byte-at-a-time, multi-cuts) of mixed valid/invalid record streams.",
     note="Trusted: Lean kernel, harness/door, UTF-8 validity as transcribed (Model/Utf8.lean). IPv6 addresses whose first 96 bits are "
          "zero are indistinguishable from IPv4 on the 6.3 wire and excluded from the round-trip theorem by an explicit predicate.",
